@@ -138,8 +138,7 @@ def affine_shape(ctx):
 
 def _ref(ctx, anchor, src, what):
     f = ctx.func(anchor)
-    got = SB.summary(f.node, strict_casts=True)
-    want = SB.summary_of_source(src, strict_casts=True)
+    got, want = SB.agree(f.node, src, strict_casts=True)
     ctx.stats['terms_compared'] += len(got)
     ctx.check(got == want, f.qualname, what, '%s differs from its definition: %s' % (f.qualname, SB.diff(got, want)), f, f.node)
 
